@@ -344,6 +344,20 @@ func (c19) Execute(env *kernel.Env, raw json.RawMessage, ch *kernel.Choices) *ke
 	if mAny != mAll {
 		out.Probe("id_with_both_priorities")
 	}
+	// the returned text belongs to the caller: assembling another list later
+	// in the same process (as the command does, one list per output file,
+	// all texts kept until they are saved) must not change it
+	kept := strings.Clone(base)
+	decoy := make([]generator.Declaration, 0, len(supplied)+1)
+	for _, d := range supplied {
+		decoy = append(decoy, generator.Declaration{ID: d.ID, Content: strings.ToUpper(d.Content) + "#other list", Priority: !d.Priority})
+	}
+	decoy = append(decoy, generator.Declaration{ID: "~decoy", Content: strings.Repeat("x", len(base))})
+	generator.WriteDeclarations(decoy)
+	out.Steps++
+	if base != kept {
+		return viol("returned_text_changes_after_later_assembly", fmt.Sprintf("supplied %s\ntext as returned: %q\nthe same string after another list was assembled: %q", ids(p.Stream), kept, base))
+	}
 	// history of two calls: assembling the very same list again (the
 	// assembler may reorder the caller's slice, it must not lose or replace
 	// declarations in it) gives the same text
